@@ -225,6 +225,10 @@ def base_molecules(full):
 
 
 def perturbed(spec, rs, amp):
+    """randomly displaced copy; the displacement is a fixed function of (molecule, amplitude), NOT of VERIF_SEED, so that
+    the input class of a perturbed geometry (and with it the set of finding keys) is the same in every run"""
+    import zlib
+    rs = np.random.RandomState(zlib.crc32(f"{spec['name']}|{amp}".encode()) % (2 ** 31))
     s = dict(spec)
     s["coords"] = (np.array(spec["coords"]) + rs.normal(scale=amp, size=(len(spec["coords"]), 3))).tolist()
     s["name"] = spec["name"] + f"~{amp:g}"
@@ -233,6 +237,16 @@ def perturbed(spec, rs, amp):
 
 
 def random_constraints(spec, rs, k):
+    for _ in range(12):
+        cons = _random_constraints(spec, rs, k)
+        s2 = dict(spec); s2["constraints"] = cons
+        s0 = dict(spec); s0["constraints"] = []
+        if not cons or degenerate_angle_cause(s2) == degenerate_angle_cause(s0):
+            return cons
+    return []
+
+
+def _random_constraints(spec, rs, k):
     """k random distance constraints: bonded, 1-3 or cross-fragment pairs; value = current (satisfied) or shifted."""
     n = len(spec["symbols"])
     if n < 3 or k == 0:
@@ -299,6 +313,44 @@ def cls_key(spec):
     return spec["cls"].rstrip("~")
 
 
+def degenerate_angle_cause(spec):
+    """Does the connected graph AnyPIC works on contain a bond angle m-o-n of exactly 0 degrees (m and n on the same side
+    of o on one line)?  Decided from the geometry and the graphs (not from whether acos happens to assert after rounding).
+    -> None, or the reason the offending edge exists: 'hbond-edge-in-linear-chain', 'constraint-edge-in-linear-chain',
+    'other-edge-in-linear-chain'"""
+    from autode.opt.coordinates.internals import _connect_graph_for_species
+    try:
+        m = mol_of(spec)
+        before = {(min(int(i), int(j)), max(int(i), int(j))) for i, j in m.graph.edges}
+        s0 = dict(spec); s0["constraints"] = []
+        m0 = mol_of(s0); _connect_graph_for_species(m0)
+        g0 = {(min(int(i), int(j)), max(int(i), int(j))) for i, j in m0.graph.edges}
+        mc = m.copy(); _connect_graph_for_species(mc)
+    except Exception:  # noqa
+        return None
+    xyz = np.array(spec["coords"])
+    causes = []
+    for o in range(len(xyz)):
+        nb = [int(v) for v in mc.graph.neighbors(o)]
+        for a in range(len(nb)):
+            for b in range(a + 1, len(nb)):
+                u, v = xyz[nb[a]] - xyz[o], xyz[nb[b]] - xyz[o]
+                cu = float(np.dot(u, v) / (np.linalg.norm(u) * np.linalg.norm(v)))
+                if cu > 1.0 - 1e-12:
+                    far = nb[a] if np.linalg.norm(u) > np.linalg.norm(v) else nb[b]
+                    e = (min(o, far), max(o, far))
+                    if e in g0 and e not in before:
+                        causes.append("hbond-edge-in-linear-chain")
+                    elif e not in g0:
+                        causes.append("constraint-edge-in-linear-chain")
+                    else:
+                        causes.append("other-edge-in-linear-chain")
+    for c in ("hbond-edge-in-linear-chain", "constraint-edge-in-linear-chain", "other-edge-in-linear-chain"):
+        if c in causes:
+            return c
+    return None
+
+
 def added_edge_cause(spec):
     """why does the connected graph contain an edge that is no bond: an H-bond edge (internals.py:549-559), a joining
     edge, or a constraint edge (internals.py:576-579)?  Decided from the graphs, not from the symptom."""
@@ -338,11 +390,23 @@ def oracle_primitives(spec):
     from autode.opt.coordinates import DIC, DICWithConstraints
     fails, info = [], {}
     cons = spec.get("constraints", [])
+    deg = degenerate_angle_cause(spec)
+    if deg is not None:
+        try:
+            build(spec)
+            how = "is evaluated at the boundary of acos (AssertionError or not depending on rounding)"
+        except Exception as e:  # noqa
+            how = f"raises {type(e).__name__} when the primitives are evaluated"
+        fails.append((f"AnyPIC|zero-bond-angle:{deg}:{cls_key(spec)}",
+                      f"{spec['name']}{' with distance constraints ' + str(cons) if cons else ''}: the graph used for the primitives has an edge "
+                      f"along a linear chain, the 0 degree bond angle {how}", rep(spec, kind="primitives")))
+        info["degenerate"] = True
+        return fails, info
     try:
         m, pic, x, q, B = build(spec)
     except Exception as e:  # noqa
         tb = traceback.extract_tb(sys.exc_info()[2])[-1]
-        zero = isinstance(e, AssertionError) and tb.name in ("acos", "_evaluate")
+        zero = False
         if zero:
             cause = added_edge_cause(spec)
             key = f"AnyPIC|zero-bond-angle:{cause}:{spec['cls']}"
@@ -473,6 +537,9 @@ def oracle_rigid(spec, rotvec, shift):
     from autode.opt.coordinates.internals import AnyPIC
     from autode.opt.coordinates.primitives import PrimitiveDihedralAngle, PrimitiveDummyLinearAngle
     fails = []
+    if degenerate_angle_cause(spec) is not None:
+        return fails
+
     try:
         m, pic, x, q, B = build(spec)
     except Exception:  # noqa  (reported by oracle_primitives)
@@ -528,6 +595,9 @@ def oracle_step(spec, direction, norm):
     failure => CoordinateTransformFailed iff allow_unconverged_back_transform is False"""
     from autode.exceptions import CoordinateTransformFailed
     fails = []
+    if degenerate_angle_cause(spec) is not None:
+        return fails, None
+
     try:
         m, pic, x, dic = make_dic(spec)
     except Exception:  # noqa
@@ -640,6 +710,9 @@ def oracle_pullback(spec, seed, stationary):
     from autode.opt.coordinates.internals import AnyPIC
     from autode.exceptions import CoordinateTransformFailed
     fails = []
+    if degenerate_angle_cause(spec) is not None:
+        return fails
+
     rs = np.random.RandomState(seed)
     spec = dict(spec); spec["constraints"] = []
     xyz = np.array(spec["coords"])
@@ -1222,6 +1295,9 @@ def oracle_constrained_gh(spec, seed):
     from autode.opt.coordinates import CartesianCoordinates, DICWithConstraints
     from autode.opt.coordinates.internals import AnyPIC
     fails = []
+    if degenerate_angle_cause(spec) is not None:
+        return fails
+
     if not spec.get("constraints"):
         return fails
     rs = np.random.RandomState(seed)
@@ -1621,10 +1697,32 @@ def impl_oracles(ctx, full):
     found = {}
 
     def record(fs, stream, case_key):
+        if callable(fs):
+            # an implementation call escaping an oracle is a finding with the raising site, never a harness crash
+            try:
+                fs = fs()
+            except Exception as e:  # noqa
+                frames = [f for f in traceback.extract_tb(sys.exc_info()[2]) if "/autode/" in f.filename]
+                site = f"{frames[-1].name}:{frames[-1].lineno}" if frames else "harness"
+                cls = case_key[0] if case_key else "?"
+                fs = [(f"{stream}|uncaught-{type(e).__name__}@{site}", f"{stream} {case_key}: {type(e).__name__}: {str(e)[:120]} at {site}",
+                       {"kind": "uncaught", "stream": stream, "case": [str(c) for c in case_key], "traceback": traceback.format_exc()[-1500:]})]
+        if isinstance(fs, tuple):
+            fs = fs[0]
         for key, what, rp in fs:
             if key not in found:
                 found[key] = (what, rp)
             ctx.hist(stream, "FAIL " + key)
+
+    def guard(stream, case_key, fn, default):
+        try:
+            return fn()
+        except Exception as e:  # noqa
+            err = e
+            def _raise():
+                raise err
+            record(_raise, stream, case_key)
+            return default
 
     rs = np.random.RandomState(ctx.rng.randint(0, 2 ** 31 - 1))
     mols = base_molecules(full)
@@ -1652,7 +1750,7 @@ def impl_oracles(ctx, full):
                     continue
                 s = dict(v); s["constraints"] = cons
                 ck = (v["name"], vi, tuple(map(tuple, cons)))
-                fs, info = oracle_primitives(s)
+                fs, info = guard("impl-primitives", (v["name"], vi), lambda: oracle_primitives(s), ([], {}))
                 record(fs, "impl-primitives", ck)
                 ctx.count("impl-primitives", ck, nontrivial=nat >= 3,
                           sample={"molecule": v["name"], "constraints": [list(c) for c in cons], "n_prim": info.get("n_prim"),
@@ -1673,22 +1771,22 @@ def impl_oracles(ctx, full):
                         norms = [(0.02,), (0.3,)][(vi + ci) % 2]
                     for norm in norms:
                         direction = rs.normal(size=info["n_dic"]).round(4).tolist()
-                        fs2, ok = oracle_step(s, direction, norm)
+                        fs2, ok = guard("impl-step", (v["name"], vi, norm), lambda: oracle_step(s, direction, norm), ([], None))
                         record(fs2, "impl-step", ck)
                         ctx.count("impl-step", ck + (norm,), nontrivial=nat >= 3)
                         ctx.hist("impl-step", f"norm={norm} " + ("converged" if ok else "no-step" if ok is None else "not-converged"))
                 if cons:
-                    record(oracle_constrained_gh(s, int(rs.randint(0, 10 ** 6))), "impl-pullback", ck + ("lagrangian",))
+                    record(lambda: oracle_constrained_gh(s, int(rs.randint(0, 10 ** 6))), "impl-pullback", ck + ("lagrangian",))
                     ctx.count("impl-pullback", ck + ("lagrangian",), nontrivial=nat >= 3)
                 if ci <= 1:
                     rot = rs.normal(size=3).round(3).tolist()
                     sh = rs.uniform(-2, 2, size=3).round(3).tolist()
-                    record(oracle_rigid(s, rot, sh), "impl-rigid", ck)
+                    record(lambda: oracle_rigid(s, rot, sh), "impl-rigid", ck)
                     ctx.count("impl-rigid", ck, nontrivial=nat >= 3)
                 if ci == 0:
                     for stationary in ((False, True) if (full and not big) else ((vi == 0),)):
                         sd = int(rs.randint(0, 10 ** 6))
-                        record(oracle_pullback(s, sd, stationary), "impl-pullback", ck)
+                        record(lambda: oracle_pullback(s, sd, stationary), "impl-pullback", ck)
                         ctx.count("impl-pullback", ck + (stationary,), nontrivial=nat >= 3)
     # exactly linear molecules in all axis-aligned (and generic) orientations x both atom orders
     systems = [("CO2(C,O,O)", ["C", "O", "O"], [0.0, 1.16, -1.16]), ("CO2(O,C,O)", ["O", "C", "O"], [-1.16, 0.0, 1.16]),
@@ -1705,12 +1803,12 @@ def impl_oracles(ctx, full):
             dv = np.array(dvec, dtype=float); dv /= np.linalg.norm(dv)
             spec = {"name": f"{sname}@{dname}", "cls": "linear-HX" if "H" in sym and sym != ["H", "C", "C", "H"] else "linear",
                     "symbols": sym, "coords": [(p * dv).tolist() for p in pos], "charge": 0, "bonds": None, "constraints": []}
-            fs, info = oracle_primitives(spec)
+            fs, info = guard("impl-linear-orientation", (sname, dname), lambda: oracle_primitives(spec), ([], {}))
             record(fs, "impl-linear-orientation", (sname, dname))
             ctx.count("impl-linear-orientation", (sname, dname), sample={"molecule": spec["name"], "n_dic": info.get("n_dic")})
             ctx.hist("impl-linear-orientation", dname)
             if "n_dic" in info and (full or dname in ("-x", "+y", "gen1")):
-                fs2, ok = oracle_step(spec, rs.normal(size=info["n_dic"]).round(4).tolist(), 0.05)
+                fs2, ok = guard("impl-linear-orientation", (sname, dname, "step"), lambda: oracle_step(spec, rs.normal(size=info["n_dic"]).round(4).tolist(), 0.05), ([], None))
                 record(fs2, "impl-linear-orientation", (sname, dname, "step"))
                 ctx.count("impl-linear-orientation", (sname, dname, "step"))
     # sequences of consecutive steps through +-180 degrees
@@ -1725,21 +1823,21 @@ def impl_oracles(ctx, full):
         seq_specs.append(({"name": smi, "cls": "chain", "symbols": s_, "coords": p_, "charge": 0, "bonds": b_, "constraints": []}, bond))
     for spec, bond in seq_specs:
         for phis in (seqs if (full or spec["name"] != "CC") else seqs[:1]):
-            record(oracle_step_sequence(spec, bond, phis), "impl-step-sequence", (spec["name"], phis))
+            record(lambda: oracle_step_sequence(spec, bond, phis), "impl-step-sequence", (spec["name"], phis))
             ctx.count("impl-step-sequence", (spec["name"], phis), sample={"molecule": spec["name"], "torsions_deg": list(phis)})
     # metal centres with improper (out-of-plane) dihedrals near 180 degrees: completeness, random steps and
     # sequences of small out-of-plane steps in both directions
     for spec in (PTCL4, PF5) + ((NICN4_CORE,) if full else ()):
-        fs, info = oracle_primitives(spec)
+        fs, info = guard("impl-improper", (spec["name"],), lambda: oracle_primitives(spec), ([], {}))
         record(fs, "impl-improper", (spec["name"], "prim"))
         ctx.count("impl-improper", (spec["name"], "prim"), sample={"molecule": spec["name"], "n_prim": info.get("n_prim"), "n_dic": info.get("n_dic")})
         if "n_dic" in info:
-            fs2, ok = oracle_step(spec, rs.normal(size=info["n_dic"]).round(4).tolist(), 0.1)
+            fs2, ok = guard("impl-improper", (spec["name"], "step"), lambda: oracle_step(spec, rs.normal(size=info["n_dic"]).round(4).tolist(), 0.1), ([], None))
             record(fs2, "impl-improper", (spec["name"], "step"))
             ctx.count("impl-improper", (spec["name"], "step"))
         for at in (0, 1, 2):
             for seq in ((0.04, 0.04, -0.08, -0.04), (-0.04, -0.04, 0.08, 0.04)):
-                record(oracle_oop_steps(spec, at, seq), "impl-improper", (spec["name"], at, seq))
+                record(lambda: oracle_oop_steps(spec, at, seq), "impl-improper", (spec["name"], at, seq))
                 ctx.count("impl-improper", (spec["name"], at, seq))
     # long cumulene chains under every / random numberings of the chain atoms
     import itertools
@@ -1747,29 +1845,29 @@ def impl_oracles(ctx, full):
     if not full:   # quick: every second numbering plus a fixed non-monotonic set
         perms5 = sorted(set(perms5[::2]) | {(0, 1, 2, 4, 3), (0, 1, 3, 2, 4), (1, 0, 2, 3, 4), (0, 2, 1, 3, 4), (4, 3, 2, 0, 1), (3, 4, 0, 1, 2)})
     for lab in perms5:
-        record(oracle_numbering(5, lab), "impl-numbering", (5, lab))
+        record(lambda: oracle_numbering(5, lab), "impl-numbering", (5, lab))
         ctx.count("impl-numbering", (5, lab), nontrivial=True, sample={"chain_numbering": list(lab)})
     perms6 = list(itertools.permutations(range(6)))
     for idx in rs.choice(len(perms6), size=(120 if full else 12), replace=False):
-        record(oracle_numbering(6, perms6[int(idx)]), "impl-numbering", (6, perms6[int(idx)]))
+        record(lambda: oracle_numbering(6, perms6[int(idx)]), "impl-numbering", (6, perms6[int(idx)]))
         ctx.count("impl-numbering", (6, perms6[int(idx)]))
     # tensors after large steps whose back-transformation falls back to the first-order estimate
     for kind in ("inverse-distances", "primitives", "constrained"):
         for size in (0.01, 1.0, 3.0):
             for inplace in (False, True):
-                fs, conv = oracle_stale_fallback(kind, size, inplace)
+                fs, conv = guard("impl-stale", (kind, size, inplace), lambda: oracle_stale_fallback(kind, size, inplace), ([], None))
                 record(fs, "impl-stale", (kind, size, inplace))
                 ctx.count("impl-stale", ("fallback", kind, size, inplace))
                 ctx.hist("impl-stale", f"large-step {'converged' if conv else 'fallback' if conv is False else 'n/a'}")
     # coordinate changes that bypass the OptCoordinates operators; constrained steps with a multiplier part
     for kind in ("cart", "dic"):
         for fam in NUMPY_OPS:
-            record(oracle_stale_numpy(kind, fam), "impl-stale", ("numpy", kind, fam))
+            record(lambda: oracle_stale_numpy(kind, fam), "impl-stale", ("numpy", kind, fam))
             ctx.count("impl-stale", ("numpy", kind, fam))
-    record(oracle_dic_setitem_cart(), "impl-stale", ("dic-setitem",))
+    record(lambda: oracle_dic_setitem_cart(), "impl-stale", ("dic-setitem",))
     ctx.count("impl-stale", ("dic-setitem",))
     for sl in (0.5, -0.25):
-        record(oracle_lambda_alias(sl), "impl-stale", ("lambda", sl))
+        record(lambda: oracle_lambda_alias(sl), "impl-stale", ("lambda", sl))
         ctx.count("impl-stale", ("lambda", sl))
     # default primitive generators (all inverse distances / all distances) on non-planar, non-linear molecules
     zig = {"name": "C4-zigzag", "cls": "chain", "symbols": ["C"] * 4, "charge": 0, "bonds": None, "constraints": [],
@@ -1780,7 +1878,7 @@ def impl_oracles(ctx, full):
     for base in dg:
         for v in ((base, perturbed(base, rs_dg, 0.05)) if (full or base["name"] in ("C4-zigzag", "BF3-pyramidal")) else (base,)):
             for which in ("inverse-distances", "distances"):
-                fsd = oracle_default_generator(v, which, rs.normal(size=3 * len(v["symbols"])).round(4).tolist(), 0.05)
+                fsd = guard("impl-default-generator", (v["name"], which), lambda: oracle_default_generator(v, which, rs.normal(size=3 * len(v["symbols"])).round(4).tolist(), 0.05), [])
                 record(fsd, "impl-default-generator", (v["name"], which))
                 ctx.count("impl-default-generator", (v["name"], which), sample={"molecule": v["name"], "generator": which})
     # dihedral continuity through +-180 degrees (and the winding beyond the code's range)
@@ -1788,12 +1886,12 @@ def impl_oracles(ctx, full):
         s, p, b = rdkit_geom(smi)
         spec = {"name": smi, "cls": "chain", "symbols": s, "coords": p, "charge": 0, "bonds": b, "constraints": []}
         for dphi in ((0.35, -0.35) if not full else (0.35, -0.35, 0.8, -1.3)):
-            record(oracle_dihedral(spec, bond, dphi, 0.9), "impl-dihedral", (smi, dphi))
+            record(lambda: oracle_dihedral(spec, bond, dphi, 0.9), "impl-dihedral", (smi, dphi))
             ctx.count("impl-dihedral", (smi, dphi, 0.9))
-        record(oracle_dihedral(spec, bond, 0.4, 2.2), "impl-dihedral", (smi, "wind"))
+        record(lambda: oracle_dihedral(spec, bond, 0.4, 2.2), "impl-dihedral", (smi, "wind"))
         ctx.count("impl-dihedral", (smi, "wind"))
         for start, dq in ((170.0, 0.35), (-172.0, -0.3)) + (((178.0, 0.1), (150.0, 0.9)) if full else ()):
-            record(oracle_dihedral_step(spec, bond, start, dq), "impl-dihedral", (smi, start, dq))
+            record(lambda: oracle_dihedral_step(spec, bond, start, dq), "impl-dihedral", (smi, start, dq))
             ctx.count("impl-dihedral", (smi, "step", start, dq))
     # stale tensors on the implementation (every op list ends in a coordinate change)
     changes = ["OSetItem", "OAdd", "OSub", "OIAdd", "OISub", "OIaddCall", "OSetItemTiny", "OAddTiny"]
@@ -1803,7 +1901,7 @@ def impl_oracles(ctx, full):
         for pre in setters:
             for ch in (changes if (full or kind == "cart") else ["OSetItem", "OAdd", "OIaddCall", "OSetItemTiny", "OAddTiny"]):
                 ops = pre + [ch]
-                record(oracle_stale(kind, ops), "impl-stale", (kind, tuple(ops)))
+                record(lambda: oracle_stale(kind, ops), "impl-stale", (kind, tuple(ops)))
                 ctx.count("impl-stale", (kind, tuple(ops)))
     return found
 
